@@ -15,6 +15,7 @@ CLAUSE_PROPS = {
     "group_cells_differ_from_label_meaning": ["C04", "C05"],
     "group_slot_order_or_levels": ["C05"],
     "response_cells_differ_from_label_meaning": ["C15"],
+    "response_level_order": ["C15"],
     "slices_do_not_partition_columns": ["C17", "C04"],   # C04: the labels of a term and its columns are equal in number
     "views_disagree": ["C17"],
     "common_rows_not_the_retained_observations": ["C17", "C09"],
